@@ -324,7 +324,7 @@ func c16HostStyle(host string, bases []string) bool {
 		b = strings.Trim(b, ".")
 		if strings.HasSuffix(host, "."+b) {
 			label := host[:len(host)-len(b)-1]
-			if !strings.Contains(label, ".") {
+			if label != "" && !strings.Contains(label, ".") {
 				return true
 			}
 		}
@@ -343,7 +343,7 @@ func c16Fallbacks(cs c16Case) []string {
 }
 
 func c16FallbackCandidates(cs c16Case) []string {
-	return []string{cs.Base, "x.y." + cs.Base, "unrelated.example.org", "bk0.s3.test:1234", "bk0" + cs.Base, "bk0.other-" + cs.Base, "localhost", "127.0.0.1:9000", "bk0.", ".", "bk0.s3.test.evil.com"}
+	return []string{cs.Base, "." + cs.Base, "x.y." + cs.Base, "unrelated.example.org", "bk0.s3.test:1234", "bk0" + cs.Base, "bk0.other-" + cs.Base, "localhost", "127.0.0.1:9000", "bk0.", ".", "bk0.s3.test.evil.com"}
 }
 
 func c16Run(t *testing.T, c *evid.Collector) {
